@@ -397,6 +397,9 @@ def build_cases(tier, seed):
         shape, t = corpus.gen_kernel(isa, rng, rng.choice([50, 52, 56]), "ladder", noise=False)
         cases.append({"name": "gen/ladder-%d" % j, "arch": "zen1" if isa == "x86" else arm_models[j % 4], "text": t,
                       "keep_runs": True})
+    for j in range(2 if tier == "quick" else 8):
+        shape, t = corpus.gen_kernel("aarch64", rng, rng.choice([50, 54, 58]), "wb_both", noise=False)
+        cases.append({"name": "gen/wb_both-%d" % j, "arch": arm_models[j % 4], "text": t, "hashseed_grid": True})
     ngen = 22 if tier == "quick" else 200
     for j in range(ngen):
         isa = "x86" if j % 2 == 0 else "aarch64"
@@ -424,6 +427,9 @@ def build_jobs(tier, seed):
     long_cases = [c for c in cases if "+pad" in c["name"] or "+rep" in c["name"] or "-5" in c["name"] or "-6" in c["name"] or "-70" in c["name"]]
     nrep = 6 if tier == "quick" else 60
     picks = long_cases[:nrep // 2] + [cases[rng.randrange(len(cases))] for _ in range(nrep - nrep // 2)]
+    for cs in [c for c in cases if c.get("hashseed_grid")]:
+        # many hash seeds, few worker counts: what differs between interpreters, not between schedules
+        jobs.append({"kind": "repeat", "case": cs, "grid": [[h, c] for h in (0, 1, 2, 3, 4, 7) for c in (1, 3)], "seed": seed})
     for cs in picks:
         hs = [0, 1, 2, 3, "random"]
         grid = [[h, c] for h in (hs if tier != "quick" else [0, 3, "random"]) for c in ([1, 3, 16] if tier != "quick" else [1, 16])]
